@@ -434,7 +434,8 @@ ITS_N = (50, 600)
 register('C04', corr=trace_corr('its', 'itscases', ITS_N, its_rel({'execute', 'gwApprove', 'init'}, 27), ITS_RULE, its_nontrivial, monitor=_itsmon),
          assumptions=['ESDT-level transfer rules (frozen accounts, non-payable recipients) are outside the model', 'zero-amount inbound transfers are not generated'])
 register('C05', corr=trace_corr('its', 'itscases', ITS_N, its_rel({'transfer', 'callContract'}, 31), ITS_RULE, its_nontrivial, monitor=_itsmon),
-         assumptions=['the EGLD-000000 multi-transfer representation of EGLD is modelled but not exercised by the harness'])
+         assumptions=['the EGLD-000000 multi-transfer representation of EGLD is modelled but not exercised by the harness; c05_service_balances_unchanged excludes it by hypothesis',
+                      'c05_service_balances_unchanged: the service is not the caller, the token manager or the gas service'])
 register('C08', corr=trace_corr('its', 'itscases', ITS_N, its_rel({'execute', 'deliver', 'callback'}, 27), ITS_RULE, its_nontrivial, monitor=_itsmon),
          assumptions=['callbacks run to completion as far as gas is concerned (gas is not modelled)', 'the destination contract is abstracted to an outcome'])
 register('C13', corr=trace_corr('its', 'itscases', ITS_N, its_rel({'execute', 'transfer', 'callContract', 'setTrusted', 'removeTrusted', 'linkToken', 'deployRemote', 'deployRemoteCanonical', 'props'}, 13), ITS_RULE, its_nontrivial, monitor=_itsmon),
@@ -442,7 +443,8 @@ register('C13', corr=trace_corr('its', 'itscases', ITS_N, its_rel({'execute', 't
 register('C14', corr=trace_corr('its', 'itscases', ITS_N, its_rel({'registerCanonical', 'registerCustom', 'deployToken', 'execute', 'linkToken', 'deployRemote', 'deployRemoteCanonical', 'props'}, 11), ITS_RULE, its_nontrivial, monitor=_itsmon),
          assumptions=['injectivity of the derivations is stated on preimages; at hash level it needs collision freedom of keccak-256'])
 register('C17', corr=trace_corr('its', 'itscases', ITS_N, its_rel({'registerMetadata', 'deployRemote', 'deployRemoteCanonical', 'props', 'linkToken'}, 29), ITS_RULE, its_nontrivial, monitor=_itsmon),
-         assumptions=['the ESDT system contract lookup is abstracted to its result (success with name/type/decimals, or error)'])
+         assumptions=['the ESDT system contract lookup is abstracted to its result (success with name/type/decimals, or error)',
+                      'world-level custody theorems: address separation (the service is not the caller, the gas service, a token manager or the address of a new manager), no EGLD-000000 alias among the payments, an inbound transfer without data does not name the service as recipient, non-empty destination chain for the lookup callback of a remote deployment (the empty chain is finding F-C17-5)'])
 register('C18', corr=trace_corr('its', 'itscases', ITS_N, its_rel({'deployToken', 'execute', 'issue', 'tm'}, 27), ITS_RULE, its_nontrivial, monitor=_itsmon),
          assumptions=['the ESDT issuance is abstracted to its result (token identifier or error); the issue cost is consumed on success'])
 register('C19', corr=trace_corr('its', 'itscases', ITS_N, its_rel({'approveRemote', 'revokeRemote', 'deployRemote', 'tm'}, 11), ITS_RULE, its_nontrivial, monitor=_itsmon),
